@@ -16,7 +16,30 @@ pub struct C18Case {
     pub queries: Vec<String>,
 }
 
+/// long "pasted paragraph" queries against long titles: several hundred shared grams per record
+fn decode_paragraph(src: &mut Source) -> Box<dyn Case> {
+    let lang = gen_lang(src);
+    let plain = plain_letters(lang);
+    let nv = src.range(90, 160);
+    let vocab: Vec<String> = (0..nv).map(|_| (0..src.range(3, 6)).map(|_| plain[src.below(plain.len())]).collect()).collect();
+    let size = src.range(1, 2);
+    let nrec = 10 * size + src.range(1, 8);
+    let titles: Vec<String> = (0..nrec)
+        .map(|_| {
+            // each title: a long random subset of the vocabulary
+            let keep = src.range(60, 100);
+            vocab.iter().filter(|_| src.below(100) < keep).cloned().collect::<Vec<_>>().join(" ")
+        })
+        .collect();
+    let keep = src.range(70, 100);
+    let q = vocab.iter().filter(|_| src.below(100) < keep).cloned().collect::<Vec<_>>().join(" ");
+    Box::new(C18Case { lang, titles, size, queries: vec![q] })
+}
+
 pub fn decode(src: &mut Source) -> Box<dyn Case> {
+    if src.chance(1, 60) {
+        return decode_paragraph(src);
+    }
     let lang = gen_lang(src);
     let plain = plain_letters(lang);
     let nv = src.range(2, 6);
@@ -56,7 +79,7 @@ pub fn decode(src: &mut Source) -> Box<dyn Case> {
 
 impl Case for C18Case {
     fn describe(&self) -> Value {
-        json!({"lang": self.lang, "size": self.size, "n_records": self.titles.len(), "first_titles": self.titles.iter().take(12).map(|t| show(t)).collect::<Vec<_>>(), "queries": self.queries.iter().map(|q| show(q)).collect::<Vec<_>>()})
+        json!({"lang": self.lang, "size": self.size, "n_records": self.titles.len(), "first_titles": self.titles.iter().take(12).map(|t| show(&t.chars().take(80).collect::<String>())).collect::<Vec<_>>(), "queries": self.queries.iter().map(|q| show(&q.chars().take(120).collect::<String>())).collect::<Vec<_>>()})
     }
     fn key(&self) -> u64 {
         hash64(self)
@@ -115,6 +138,7 @@ impl Case for C18Case {
                 ctx.label("mixed-counts");
             }
             ctx.label_if(pos == 0, "no-candidate");
+            ctx.label_if(shared.iter().any(|&c| c > 255), ">255-shared-grams");
             ctx.count("prepares", 1);
         }
         ctx.label_if(self.size == 0, "size-0");
